@@ -124,7 +124,15 @@ def make(targets, jobs=8, timeout=1500):
         except subprocess.TimeoutExpired as e:
             return False, f'TIMEOUT after {timeout}s\n{e.stdout or ""}'
 
-def build_property(coq_dir, props_files=('Props.v',), timeout=1500):
+def header_targets(header):
+    """.vo files the generated case files import (they must be rebuilt with the theorems)."""
+    t = []
+    for m in re.finditer(r'From V Require (?:Import|Export)\s+(.*?)\.(?:\s|$)', header, re.S):
+        for mod in m.group(1).split():
+            t.append(mod.replace('.', '/') + '.vo')
+    return t
+
+def build_property(coq_dir, props_files=('Props.v',), timeout=1500, extra=()):
     """Rebuild the property's Props files (always recompiled so that Print Assumptions
     output is captured) and everything they depend on."""
     outs = []
@@ -133,7 +141,7 @@ def build_property(coq_dir, props_files=('Props.v',), timeout=1500):
         vo = os.path.join(COQ, coq_dir, pf + 'o')
         if os.path.exists(vo):
             os.remove(vo)
-    ok, out = make([f'{coq_dir}/{pf}o' for pf in props_files], timeout=timeout)
+    ok, out = make([f'{coq_dir}/{pf}o' for pf in props_files] + list(extra), timeout=timeout)
     return ok, out
 
 THM = re.compile(r'^\s*(Theorem|Example)\s+([A-Za-z0-9_\']+)', re.M)
@@ -332,7 +340,7 @@ def run_check(pid, tier, seed, replay=None):
     axioms = []
     build_out = ''
     if not any(b.startswith('translator') for b in broken):
-        ok, build_out = build_property(plugin.COQ_DIR, props_files)
+        ok, build_out = build_property(plugin.COQ_DIR, props_files, extra=header_targets(plugin.COQ_HEADER))
         if ok:
             closed, axioms = parse_assumptions(build_out)
             discharged = obligations
